@@ -153,7 +153,7 @@ namespace parmcb {
     }
 
 #ifdef PARMCB_HAVE_TBB
-    void set_global_tbb_concurrency(const std::size_t hardware_concurrency_hint) {
+    inline void set_global_tbb_concurrency(const std::size_t hardware_concurrency_hint) {
         // the limit is only in effect while the controlling object is alive: keep it until the next call
 #if TBB_VERSION_MAJOR > 2020
         static std::unique_ptr<oneapi::tbb::global_control> global_limit;
